@@ -56,6 +56,11 @@ def make_case(tier, seed, index):
         fw, db, pbs = corpus.PAIRS[i] if i < len(corpus.PAIRS) else (corpus.AUTO[i - len(corpus.PAIRS)], None, [])
         menu = ["add_pop", "remove_pop", "add_transfer", "remove_transfer", "copy", "add_pop", "remove_pop"]
         ops = [str(menu[int(rng.integers(0, len(menu)))]) for _ in range(int(rng.integers(1, 5)))]
+        pmenu = ["copy", "add_program", "remove_program", "remove_par", "add_par", "sample0", "remove_pop"]
+        pops_ = [str(pmenu[int(rng.integers(0, len(pmenu)))]) for _ in range(int(rng.integers(1, 4)))]
+        while pops_.count("sample0") > 1:
+            pops_.remove("sample0")
+        case["progset_ops"] = pops_
         case.update({"kind": "corpus-roundtrip", "framework": fw, "databook": db, "progbook": pbs[int(rng.integers(0, len(pbs)))] if pbs else None, "mode": "mild", "budget_factor": 1.0, "prog_start_step": 1.0, "ops": ops, "seed": [seed, 16, index, 9]})
         return case
     index += len(LIB)
@@ -263,6 +268,8 @@ def run_case(case):
         # editing operations on the shipped databook (populations of every type, transfers), then the round trip
         if case.get("ops"):
             data_ops(R, case, P, None, np.random.default_rng(case["seed"]))
+        if pset is not None and case.get("progset_ops"):
+            progset_ops(R, case, P, pset, instr, np.random.default_rng(case["seed"] + [1]))
         return {"records": R.records(), "stats": R.stats, "nontrivial": True, "sample": dict(corpus.describe(case), kind=kind, ops=case.get("ops"))}
     spec, ps = case["spec"], case["progspec"]
     rng = np.random.default_rng(case["seed"])
@@ -488,23 +495,34 @@ def progset_ops(R, case, P, pset, instr, rng):
 
     R.count("operation_sequences")
     parset = P.parsets[0]
-    spec = case["spec"]
+    spec = case.get("spec")
     try:
         untouched = sim(P, parset, pset, instr)
     except Exception:
         return False
     ps = sc.dcp(pset)
     applied = []
-    ords = [c["name"] for c in spec["comps"] if c["kind"] == "ord"]
-    for op in case["ops"]:
+    fw_ = P.framework
+    if spec is not None:
+        ords = [c["name"] for c in spec["comps"] if c["kind"] == "ord"]
+        first_pop = spec["pops"][0]
+        targetable = [p["name"] for p in spec["pars"] if p.get("targetable")]
+    else:
+        first_pop = list(pset.pops.keys())[0]
+        ptype0 = pset.pops[first_pop]["type"]
+        ords = [n for n, row in fw_.comps.iterrows() if row["is junction"] != "y" and row["is source"] != "y" and row["is sink"] != "y" and row["population type"] == ptype0]
+        targetable = [n for n, row in fw_.pars.iterrows() if row["targetable"] == "y"]
+    for op in case.get("progset_ops", case["ops"]):
         try:
             if op == "copy":
                 ps = ps.copy("copied")
             elif op == "add_program":
-                nm = "newprog%d" % len(ps.programs)
+                nm = "newprog%d" % (len(ps.programs) + len(applied))
+                while nm in ps.programs:
+                    nm += "x"
                 ps.add_program(nm, "New " + nm)
                 prog = ps.programs[nm]
-                prog.target_pops = [spec["pops"][0]]
+                prog.target_pops = [first_pop]
                 prog.target_comps = [ords[0]]
                 prog.spend_data.insert(None, 1000.0)
                 prog.unit_cost.insert(None, 3.0)
@@ -522,10 +540,10 @@ def progset_ops(R, case, P, pset, instr, rng):
                 nm = list(ps.pars.keys())[int(rng.integers(0, len(ps.pars)))]
                 ps.remove_par(nm)
             elif op == "add_par":
-                missing = [p["name"] for p in spec["pars"] if p.get("targetable") and p["name"] not in ps.pars]
+                missing = [n_ for n_ in targetable if n_ not in ps.pars]
                 if not missing:
                     continue
-                ps.add_par(missing[0], "Par " + missing[0])
+                ps.add_par(missing[0], str(fw_.pars.at[missing[0], "display name"]))  # (the program book identifies parameters by their display name)
             elif op == "sample0":
                 for prog in ps.programs.values():
                     for ts in (prog.spend_data, prog.unit_cost, prog.capacity_constraint, prog.saturation, prog.coverage):
